@@ -26,7 +26,7 @@ func Gen(f Focus, thorough bool) *rapid.Generator[Script] {
 			kinds = []string{KindV1Join, KindV2Join, KindV2Unite}
 		}
 		s.Kind = rapid.SampledFrom(kinds).Draw(t, "kind")
-		js := []uint{1, 2, 3, 4, 5, 8}
+		js := []uint{1, 2, 3, 4, 5, 8, 1, 2, 3, 4, 5, 8, 33, 1000}
 		if thorough {
 			js = append(js, 7, 16, 64)
 		}
@@ -51,7 +51,7 @@ func Gen(f Focus, thorough bool) *rapid.Generator[Script] {
 			s.Timeout = -pick(t, "negtov", int64(1), 1000, 1<<62) // negative = no timeout, as documented
 		}
 		T := unit
-		s.InCap = pick(t, "cap", 0, 0, 1, 2, 3, 6)
+		s.InCap = pick(t, "cap", 0, 0, 1, 2, 3, 6, 40)
 		maxN := 20
 		if thorough {
 			maxN = 40
@@ -60,8 +60,13 @@ func Gen(f Focus, thorough bool) *rapid.Generator[Script] {
 		mode := pick(t, "mode", "burst", "mixed", "mixed", "trickle", "single", "pauses")
 		if mode == "single" {
 			n = rapid.IntRange(1, 2).Draw(t, "n1")
+		} else if rapid.IntRange(0, 15).Draw(t, "long") == 0 {
+			n = rapid.IntRange(60, 200).Draw(t, "nlong")
 		}
-		lenPool := []int{0, 1, 1, 2, 3, int(s.J) - 1, int(s.J), int(s.J) + 1, 2 * int(s.J)}
+		lenPool := []int{0, 1, 1, 2, 3, int(s.J) - 1, int(s.J), int(s.J) + 1, 2 * int(s.J), 10*int(s.J) + 1}
+		if s.J > 100 {
+			lenPool = []int{0, 1, 2, 3, 7, 100, int(s.J) - 1, int(s.J), int(s.J) + 1}
+		}
 		for i := 0; i < n; i++ {
 			var g int64
 			switch mode {
